@@ -5,7 +5,51 @@ import os
 from vlib import Suite, zlist, zlit, coqlist, blit, opt
 
 ID = "C14"
-READY = False
+READY = True
+RULE = ("opp: streams of 1-9 segments (valid 7/11-byte reports for configured and unconfigured boards, EOM bytes, "
+        "reports with 1-3 corrupted bytes, truncated reports, noise incl. address/command look-alikes, 10-EOM flushes, "
+        "and the refutation-witness family) cut into random reads down to single bytes; non-trivial = at least one cut "
+        "and at least one report delivered.  reader: FAST (CR) / PKONE ('E') streams of 1-8 messages incl. empty ones, "
+        "bytes that can never be UTF-8, optional truncation, random reads; non-trivial = more than one read and a "
+        "message decoded.  writer: 1-12 operations (queue plain / confirmed message, incoming message) against the real "
+        "_socket_writer task on an asyncio loop; non-trivial = a confirmed message and > 2 operations.  retry: "
+        "send_and_wait_for_response_processed with lost / late / timely responses on the virtual-time loop (oracle only)")
+TRUSTED_BASE = [
+    "Coq 8.16.1 kernel (coqc); vm_compute for the finite sweeps over bytes (256 and 256x256 cases, lifted to "
+    "universally quantified lemmas through forallb_forall), for refutation witnesses and for evaluating the model in "
+    "the correspondence run; no native_compute",
+    "axioms: none (every Print Assumptions is 'Closed under the global context')",
+    "translator harness/props/c14.py::translate (Python ast -> coq/C14/gen/Crc.v): CRC8_LOOKUP literal, the initial "
+    "value and update shape of both CRC loops, READ_GEN2_INP_CMD / READ_MATRIX_INP / EOM_CMD; fail-closed",
+    "hand-written model coq/C14/Model.v tied to /repo by correspondence on every run: OPPSerialCommunicator._parse_msg + "
+    "OppHardwarePlatform.process_received_message/read_gen2_inp_resp/read_matrix_inp_resp, "
+    "FastSerialCommunicator.parse_incoming_raw_bytes/_dispatch_incoming_msg/_socket_writer/pause_sending, "
+    "PKONESerialCommunicator._parse_msg, all driven on real objects with mocked platform/machine",
+    "CPython bytes.decode() (model domain: a message decodes iff all bytes < 0x80; generators never emit 0xC2..0xF4), "
+    "asyncio Queue/Event/Task scheduling (writer), mpf.tests.loop.TimeTravelLoop (retry suite)",
+    "independent Python reference pieces used by the oracles only: bitwise CRC-8 (poly 0x07), byte-at-a-time framing automaton",
+]
+ASSUMPTIONS = [
+    "serial transport, OS buffering and serial_asyncio are outside the model; reads are arbitrary splits of the byte stream",
+    "OPP: the _initial handlers (used during _identify_connection) and readuntil-based start-up are not modelled; "
+    "matrix cards start from an integer old_state (the code's initial [0, 0] list would raise TypeError on the first "
+    "change report if the initial read-out had been lost)",
+    "switch state is observed as OPPInputCard.old_state and the process_switch_by_num calls, not through SwitchController",
+    "FAST writer: one step of the model = one operation followed by running the loop until idle",
+]
+LEVEL_TEXT = ("Machine-checked proof (Coq) over executable models of the three incremental decoders and the FAST writer: "
+              "the OPP loop refines a byte-at-a-time automaton for every split into reads, CRC-8 (table translated from "
+              "the source, proved equal to polynomial 0x07) detects every single-byte change of a frame of any length, "
+              "bad-CRC frames never change state, the state is the last valid report per board, ten EOM bytes always "
+              "resynchronise; FAST/PKONE delimiter framing is split independent; queue order is preserved.  Three parts "
+              "of the property are refuted for the code as found (theorems with witnesses, reproduced on the code on "
+              "every run as known findings): OPP can stay out of step for ever, a non-UTF-8 byte ends the FAST/PKONE "
+              "reader, the FAST writer never waits for a confirmation / never retries.")
+LEVEL_NOTE = ("Trusted: Coq kernel + vm_compute, no axioms; translator for the CRC table; hand model validated by "
+              "differential runs against the working tree on every check; real serial timing is outside the model.")
+TECHNIQUE = ("Coq proof (refinement to a byte automaton, induction over streams, finite sweeps lifted by forallb) over "
+             "translated CRC table + hand-written model; differential correspondence by vm_compute; direct oracles")
+DESIGN_REF = "DESIGN.md section 3, C14"
 
 
 # ------------------------------------------------------------------------------------------------
@@ -84,4 +128,663 @@ def translate(repo, gendir):
             f.write(txt)
 
 
-SUITES = []
+
+
+
+# ================================================================================================
+# independent reference pieces for the oracles (NOT the Coq model): bitwise CRC-8 poly 0x07 init 0xff
+def crc8_ref(bs):
+    c = 0xff
+    for b in bs:
+        c ^= b
+        for _ in range(8):
+            c = ((c << 1) ^ 0x07) & 0xff if c & 0x80 else (c << 1) & 0xff
+    return c
+
+
+def is_addr(b):
+    return (b & 0xe0) == 0x20
+
+
+def automaton_ref(stream):
+    """byte-at-a-time framing (used only to classify a resynchronisation failure as the recorded one)"""
+    st, acc, need, out = "idle", [], 0, []
+    for b in stream:
+        if st == "lost":
+            if is_addr(b):
+                st, acc = "addr", [b]
+        elif st == "idle":
+            if is_addr(b):
+                st, acc = "addr", [b]
+            elif b != 0xff:
+                st = "lost"
+        elif st == "addr":
+            if b == 0x08:
+                st, acc, need = "frame", acc + [b], 5
+            elif b == 0x19:
+                st, acc, need = "frame", acc + [b], 9
+            else:
+                st = "lost"
+        else:
+            acc = acc + [b]
+            need -= 1
+            if need == 0:
+                out.append(acc)
+                st = "idle"
+    return out
+
+
+INP_ADDRS = [0x20, 0x22]
+MAT_ADDRS = [0x21, 0x22]
+SPICE = [0x00, 0xff, 0x20, 0x21, 0x22, 0x08, 0x19, 0x3f, 0x40, 0xfe, 0xf0]
+
+
+def mk_frame(rng, prev):
+    kind = rng.choice(["g", "g", "g", "m"])
+    if kind == "g":
+        a = rng.choice([0x20, 0x20, 0x22, 0x22, 0x23, 0x3f])
+        n = 4
+    else:
+        a = rng.choice([0x21, 0x21, 0x22, 0x20])
+        n = 8
+    key = (kind, a)
+    r = rng.random()
+    if key in prev and r < 0.45:
+        data = list(prev[key])
+        for _ in range(rng.choice([0, 1, 1, 2])):
+            i = rng.randrange(n)
+            data[i] ^= 1 << rng.randrange(8)
+    elif r < 0.75:
+        data = [rng.choice(SPICE) for _ in range(n)]
+    else:
+        data = [rng.randrange(256) for _ in range(n)]
+    prev[key] = data
+    body = [a, 0x08 if kind == "g" else 0x19] + data
+    return body + [crc8_ref(body)]
+
+
+def gen_opp(rng, tier, i):
+    segs = []
+    prev = {}
+    if rng.random() < 0.06:
+        # the family of the refutation witness: data bytes that look like an address/command pair
+        a = rng.choice([0x20, 0x22])
+        body = [a, 0x08, rng.choice([0x21, 0x20, 0x22]), 0x08, rng.randrange(256), rng.randrange(256)]
+        f = body + [crc8_ref(body)]
+        segs.append(["noise", [rng.choice([0x20, 0x21, 0x3f])]])
+        for _ in range(rng.randint(3, 8)):
+            segs.append(["valid", f])
+            segs.append(["eom", [0xff]])
+    else:
+        for _ in range(rng.randint(1, 9)):
+            r = rng.random()
+            if r < 0.55:
+                segs.append(["valid", mk_frame(rng, prev)])
+                if rng.random() < 0.5:
+                    segs.append(["eom", [0xff] * rng.choice([1, 1, 2])])
+            elif r < 0.67:
+                f = mk_frame(rng, dict(prev))
+                for _ in range(rng.choice([1, 1, 1, 2, 3])):
+                    k = rng.randrange(len(f))
+                    f[k] = rng.choice([f[k] ^ (1 << rng.randrange(8)), rng.randrange(256), rng.choice(SPICE)])
+                segs.append(["corrupt", f])
+            elif r < 0.75:
+                f = mk_frame(rng, dict(prev))
+                segs.append(["trunc", f[:rng.randrange(1, len(f))]])
+            elif r < 0.87:
+                segs.append(["noise", [rng.choice(SPICE + [rng.randrange(256)]) for _ in range(rng.choice([1, 1, 2, 3, 6, 12]))]])
+            else:
+                segs.append(["flush", [0xff] * 10])
+    stream = [b for _, s in segs for b in s]
+    cuts = sorted(set(rng.randrange(len(stream) + 1) for _ in range(rng.choice([0, 1, 2, 4, 8, 30]))))
+    if rng.random() < 0.12:
+        cuts = list(range(1, len(stream)))
+    init = {"inp": [[a, rng.choice([0xffffffff, 0, rng.getrandbits(32)])] for a in INP_ADDRS],
+            "mat": [[a, rng.choice([0xffffffffffffffff, 0, rng.getrandbits(64)])] for a in MAT_ADDRS]}
+    return {"segs": segs, "cuts": cuts, "init": init}
+
+
+def chunks_of(case):
+    stream = [b for _, s in case["segs"] for b in s]
+    out, prev = [], 0
+    for c in list(case["cuts"]) + [len(stream)]:
+        if c > prev:
+            out.append(stream[prev:c])
+            prev = c
+    return out
+
+
+def _opp_run(chunks, init):
+    import logging
+    from collections import defaultdict
+    from unittest.mock import MagicMock
+    from mpf.platforms.opp.opp import OppHardwarePlatform
+    from mpf.platforms.opp.opp_serial_communicator import OPPSerialCommunicator
+    from mpf.platforms.opp.opp_switch import OPPInputCard, OPPMatrixCard
+    p = OppHardwarePlatform.__new__(OppHardwarePlatform)
+    p.machine = MagicMock()
+    p.log = logging.getLogger("c14.opp")
+    p.log.disabled = True
+    events, frames = [], []
+
+    def psn(state, num, platform, logical=False):
+        _, card, idx = num.split("-")
+        events.append([int(card) + 0x20, int(idx), int(state)])
+    p.machine.switch_controller.process_switch_by_num = psn
+    p.inp_dict, p.inp_addr_dict, p.matrix_inp_addr_dict = {}, {}, {}
+    p.bad_crc = defaultdict(lambda: 0)
+    p.opp_connection = {}
+    p._poll_response_received = {"c": MagicMock()}
+    p.opp_commands = {0xf0: p.inv_resp, 0xff: p.eom_resp, 0x0d: p.get_gen2_cfg_resp, 0x08: p.read_gen2_inp_resp,
+                      0x02: p.vers_resp, 0x19: p.read_matrix_inp_resp}
+    real = p.process_received_message
+
+    class Plat:       # records what the framing layer hands over, then calls the real platform method
+        def process_received_message(self, chain_serial, msg):
+            frames.append(list(msg))
+            real(chain_serial, msg)
+    c = OPPSerialCommunicator.__new__(OPPSerialCommunicator)
+    c.part_msg, c.chain_serial, c._lost_synch, c.platform = b"", "c", False, Plat()
+    p.opp_connection["c"] = c
+    cards_i, cards_m = {}, {}
+    for a, v in init["inp"]:
+        cards_i[a] = OPPInputCard("c", a, 0xffffffff, p.inp_dict, p.inp_addr_dict, p)
+        cards_i[a].old_state = v
+    for a, v in init["mat"]:
+        cards_m[a] = OPPMatrixCard("c", a, p.inp_dict, p.matrix_inp_addr_dict, p)
+        cards_m[a].old_state = v
+    err = None
+    try:
+        for ch in chunks:
+            c._parse_msg(bytes(ch))
+    except Exception as e:      # noqa
+        err = type(e).__name__
+    return {"frames": frames, "events": events, "inp": [[a, cards_i[a].old_state] for a, _ in init["inp"]],
+            "mat": [[a, cards_m[a].old_state] for a, _ in init["mat"]], "buf": list(c.part_msg),
+            "lost": bool(c._lost_synch), "err": err}
+
+
+def run_opp(case):
+    ch = chunks_of(case)
+    return {"split": _opp_run(ch, case["init"]), "whole": _opp_run([sum(ch, [])], case["init"])}
+
+
+def coq_opp(case, out):
+    o = out["split"]
+    if o["err"]:
+        return None
+    amap = lambda kv: coqlist("(%s,%s)" % (zlit(k), zlit(v)) for k, v in kv)
+    inp = "((%s, %s), %s)" % (amap(case["init"]["inp"]), amap(case["init"]["mat"]),
+                              coqlist(zlist(c) for c in chunks_of(case)))
+    exp = ("{| oo_frames := %s; oo_events := %s; oo_inp := %s; oo_mat := %s; oo_buf := %s; oo_lost := %s |}" %
+           (coqlist(zlist(f) for f in o["frames"]),
+            coqlist("(%s,%s,%s)" % (zlit(a), zlit(i), zlit(s)) for a, i, s in o["events"]),
+            amap(o["inp"]), amap(o["mat"]), zlist(o["buf"]), blit(o["lost"])))
+    return "(%s, %s)" % (inp, exp)
+
+
+def expected_from_frames(frames, init):
+    """the property's own predicate: state and events as determined by the CRC-valid delivered reports only"""
+    inp = {a: v for a, v in init["inp"]}
+    mat = {a: v for a, v in init["mat"]}
+    events = []
+    for f in frames:
+        if len(f) == 7 and f[1] == 0x08 and crc8_ref(f[:6]) == f[6] and f[0] in inp:
+            new = int.from_bytes(bytes(f[2:6]), "big")
+            for i in range(32):
+                if (inp[f[0]] ^ new) >> i & 1:
+                    events.append([f[0], i, 0 if new >> i & 1 else 1])
+            inp[f[0]] = new
+        elif len(f) == 11 and f[1] == 0x19 and crc8_ref(f[:10]) == f[10] and f[0] in mat:
+            new = int.from_bytes(bytes(f[2:10]), "big")
+            for i in range(64):
+                if (mat[f[0]] ^ new) >> i & 1:
+                    events.append([f[0], 32 + i, 0 if new >> i & 1 else 1])
+            mat[f[0]] = new
+    return [[a, inp[a]] for a, _ in init["inp"]], [[a, mat[a]] for a, _ in init["mat"]], events
+
+
+def contains_in_order(hay, needles):
+    """needles appear in hay as a contiguous run"""
+    if not needles:
+        return True
+    n = len(needles)
+    return any(hay[i:i + n] == needles for i in range(len(hay) - n + 1))
+
+
+def oracle_opp(case, out):
+    fails = []
+    a, b = out["split"], out["whole"]
+    if a["err"] or b["err"]:
+        fails.append({"sig": "opp-parser-exception", "what": "the OPP parser raised %s" % (a["err"] or b["err"])})
+        return fails
+    for k in ("frames", "events", "inp", "mat"):
+        if a[k] != b[k]:
+            fails.append({"sig": "opp-chunking-dependent", "what": "%s differ between split and unsplit delivery" % k})
+            break
+    inp, mat, events = expected_from_frames(a["frames"], case["init"])
+    if inp != a["inp"] or mat != a["mat"] or events != a["events"]:
+        fails.append({"sig": "opp-state-not-from-valid-reports",
+                      "what": "switch state / switch events are not those determined by the CRC-valid reports delivered"})
+    # resynchronisation
+    segs = case["segs"]
+    stream = [x for _, s in segs for x in s]
+    i = 0
+    while i < len(segs):
+        kind = segs[i][0]
+        if kind in ("flush", "noise", "corrupt", "trunc") or i == 0:
+            j = i + 1 if kind in ("flush", "noise", "corrupt", "trunc") else 0
+            run = []
+            while j < len(segs) and segs[j][0] in ("valid", "eom"):
+                if segs[j][0] == "valid":
+                    run.append(segs[j][1])
+                j += 1
+            if kind == "flush" or (i == 0 and kind in ("valid", "eom")):
+                if not contains_in_order(a["frames"], run):
+                    fails.append({"sig": "opp-frame-lost-at-boundary",
+                                  "what": "valid reports sent from a frame boundary / after an EOM flush were not all delivered"})
+            elif kind != "flush" and len(run) > 2:
+                if not contains_in_order(a["frames"], run[2:]):
+                    if automaton_ref(stream) == a["frames"]:
+                        fails.append({"sig": "opp-resync-header-lookalike",
+                                      "what": "after line noise more than two following valid reports are lost: data bytes "
+                                              "that look like an address/command pair keep the length framing out of step"})
+                    else:
+                        fails.append({"sig": "opp-resync-other", "what": "valid reports after noise are not decoded"})
+            i = max(j, i + 1)
+        else:
+            i += 1
+    return fails
+
+
+def shrink_opp(case):
+    segs = case["segs"]
+    for i in range(len(segs)):
+        yield {"segs": segs[:i] + segs[i + 1:], "cuts": [], "init": case["init"]}
+    for i in range(len(segs)):
+        yield {"segs": segs[:i] + segs[i + 1:], "cuts": case["cuts"], "init": case["init"]}
+    cuts = case["cuts"]
+    for i in range(len(cuts)):
+        yield {"segs": segs, "cuts": cuts[:i] + cuts[i + 1:], "init": case["init"]}
+    z = {"inp": [[a, 0] for a in INP_ADDRS], "mat": [[a, 0] for a in MAT_ADDRS]}
+    if case["init"] != z:
+        yield {"segs": segs, "cuts": cuts, "init": z}
+
+
+def nontrivial_opp(case, out):
+    return len(case["cuts"]) >= 1 and len(out["split"]["frames"]) >= 1
+
+
+def describe_opp(case):
+    kinds = sorted(set(k for k, _ in case["segs"]))
+    n = len(case["cuts"])
+    return "%s chunks=%s" % ("+".join(k[0] for k in kinds), "1" if n == 0 else "2-5" if n < 5 else ">5")
+
+
+HDR_OPP = "From C14 Require Import Crc Model.\nDefinition run := opp_run.\nDefinition out_eqb := opp_out_eqb.\n"
+
+
+# ================================================================================================
+# delimiter readers: FAST parse_incoming_raw_bytes (CR) and PKONE _parse_msg ('E')
+INVALID_UTF8 = list(range(0x80, 0xc2)) + list(range(0xf5, 0x100))     # never part of valid UTF-8
+FAST_MSGS = ["ID:NET FP-CPU-2000  2.06", "SA:0E,2900000000000000000000000000", "-L:0B", "/L:0B", "WD:P", "XX:F", "SL:P",
+             "DL:P", "NN:00,FP-I/O-3208-2   ,01.00,08,20,04,06,00,00,00,00", "A", "", "", "!B:02", "CH:2000,FF"]
+PKONE_MSGS = ["PCN", "PCB0XP11F10", "PSA011000000000000000000000000000000000000X", "PSW0315", "PWD", "", "PLB", "XX"]
+
+
+def gen_reader(rng, tier, i):
+    which = rng.choice(["fast", "fast", "pkone"])
+    delim = 13 if which == "fast" else 69
+    pool = FAST_MSGS if which == "fast" else PKONE_MSGS
+    msgs = []
+    stream = []
+    for _ in range(rng.randint(1, 8)):
+        r = rng.random()
+        if r < 0.8:
+            m = list(rng.choice(pool).encode())
+            if which == "pkone":
+                m = [b for b in m if b != 69]
+        elif r < 0.9:
+            m = [rng.randrange(1, 128) for _ in range(rng.randint(0, 5))]
+            m = [b for b in m if b != delim]
+        else:
+            m = list(rng.choice(pool).encode())
+            m = [b for b in m if b != delim]
+            for _ in range(rng.choice([1, 1, 2])):
+                m.insert(rng.randrange(len(m) + 1), rng.choice(INVALID_UTF8))
+        msgs.append(m)
+        stream += m + [delim]
+    if rng.random() < 0.3:
+        stream = stream[:rng.randrange(len(stream) + 1)]
+    cuts = sorted(set(rng.randrange(len(stream) + 1) for _ in range(rng.choice([0, 1, 2, 4, 8, 30]))))
+    if rng.random() < 0.12:
+        cuts = list(range(1, len(stream)))
+    chunks, prev = [], 0
+    for c in cuts + [len(stream)]:
+        if c > prev:
+            chunks.append(stream[prev:c])
+            prev = c
+    return {"which": which, "chunks": chunks}
+
+
+def _mk_fast(record):
+    import logging
+    from unittest.mock import MagicMock
+    from mpf.platforms.fast.communicators.base import FastSerialCommunicator
+
+    class Rec(FastSerialCommunicator):
+        def _dispatch_incoming_msg(self, msg):
+            record(msg)
+            return super()._dispatch_incoming_msg(msg)
+    platform = MagicMock()
+    platform.machine.is_shutting_down = False
+    platform.debug = False
+    c = Rec(platform, "net", {"debug": False, "watchdog": None, "port": ["x"], "baud": 1})
+    c.log = logging.getLogger("c14.fast")
+    c.log.disabled = True
+    c.port_debug = False
+    c.ignore_decode_errors = False          # the value connect() leaves behind
+    return c
+
+
+def _reader_run(which, chunks):
+    seen = []
+    dead = None
+    if which == "fast":
+        c = _mk_fast(lambda m: seen.append(list(m.encode()) if isinstance(m, str) else list(m)))
+        feed = c.parse_incoming_raw_bytes
+    else:
+        import logging
+        from unittest.mock import MagicMock
+        from mpf.platforms.pkone.pkone_serial_communicator import PKONESerialCommunicator
+        c = PKONESerialCommunicator.__new__(PKONESerialCommunicator)
+        c.received_msg = b""
+        c.messages_in_flight = 0
+        c.max_messages_in_flight = 10
+        c.read_task = None
+        c.send_ready = MagicMock()
+        c.log = logging.getLogger("c14.pkone")
+        c.log.disabled = True
+        c.platform = MagicMock()
+        c.platform.process_received_message = lambda m: seen.append(list(m.encode()))
+        feed = c._parse_msg
+    for ch in chunks:
+        try:
+            feed(bytes(ch))
+        except UnicodeDecodeError:
+            dead = "UnicodeDecodeError"      # propagates out of _socket_reader: the read task ends
+            break
+        except Exception as e:               # noqa
+            dead = type(e).__name__
+            break
+    return {"msgs": seen, "dead": dead, "buf": list(c.received_msg)}
+
+
+def run_reader(case):
+    return {"split": _reader_run(case["which"], case["chunks"]),
+            "whole": _reader_run(case["which"], [sum(case["chunks"], [])])}
+
+
+def coq_reader(case, out):
+    o = out["split"]
+    if o["dead"] not in (None, "UnicodeDecodeError"):
+        return None
+    d = 13 if case["which"] == "fast" else 69
+    dead = o["dead"] is not None
+    ign = "[]" if case["which"] == "fast" else coqlist([zlist(b"PWD")])
+    return "(((%d, %s), %s), ((%s, %s), %s))" % (d, ign, coqlist(zlist(c) for c in case["chunks"]),
+                                           coqlist(zlist(m) for m in o["msgs"]), blit(dead),
+                                           zlist([] if dead else o["buf"]))
+
+
+def oracle_reader(case, out):
+    fails = []
+    a, b = out["split"], out["whole"]
+    if a["msgs"] != b["msgs"] or a["dead"] != b["dead"] or (a["dead"] is None and a["buf"] != b["buf"]):
+        fails.append({"sig": "reader-chunking-dependent", "what": "decoded messages differ between split and unsplit delivery"})
+    d = 13 if case["which"] == "fast" else 69
+    stream = sum(case["chunks"], [])
+    parts, cur = [], []
+    for x in stream:
+        if x == d:
+            parts.append(cur)
+            cur = []
+        else:
+            cur.append(x)
+    complete = [m for m in parts if m and not (case["which"] == "pkone" and m == list(b"PWD"))]
+    good = [m for m in complete if all(x < 128 for x in m)]
+    if a["dead"] is None:
+        if a["msgs"] != good or a["buf"] != cur:
+            fails.append({"sig": "reader-wrong-messages", "what": "decoded messages are not the complete delimited messages of the stream"})
+    else:
+        # property: noise must not stop later valid messages from being decoded
+        k = next(i for i, m in enumerate(complete) if not all(x < 128 for x in m))
+        if a["dead"] == "UnicodeDecodeError" and a["msgs"] == complete[:k]:
+            fails.append({"sig": "reader-dies-on-undecodable-byte",
+                          "what": "a message containing a non-UTF-8 byte raises UnicodeDecodeError out of the %s read "
+                                  "loop; the reader task ends and nothing received afterwards is decoded" % case["which"]})
+        else:
+            fails.append({"sig": "reader-died-other", "what": "reader raised %s" % a["dead"]})
+    return fails
+
+
+def shrink_reader(case):
+    ch = case["chunks"]
+    for i in range(len(ch)):
+        yield {"which": case["which"], "chunks": ch[:i] + ch[i + 1:]}
+    for i in range(len(ch) - 1):
+        yield {"which": case["which"], "chunks": ch[:i] + [ch[i] + ch[i + 1]] + ch[i + 2:]}
+    for i in range(len(ch)):
+        if len(ch[i]) > 1:
+            h = len(ch[i]) // 2
+            yield {"which": case["which"], "chunks": ch[:i] + [ch[i][:h]] + ch[i + 1:]}
+            yield {"which": case["which"], "chunks": ch[:i] + [ch[i][h:]] + ch[i + 1:]}
+
+
+def nontrivial_reader(case, out):
+    return len(case["chunks"]) > 1 and len(out["split"]["msgs"]) >= 1
+
+
+def describe_reader(case):
+    n = len(case["chunks"])
+    return "%s chunks=%s" % (case["which"], "1" if n == 1 else "2-5" if n <= 5 else ">5")
+
+
+HDR_READER = "From C14 Require Import Crc Model.\nDefinition run := reader_run.\nDefinition out_eqb := reader_out_eqb.\n"
+
+
+# ================================================================================================
+# FAST writer flow control
+HEADERS = ["AA:", "AB:", "SA:", "DL:P", "WD:", "AA:P"]
+RX_MSGS = ["AA:P", "AB:", "AB:00", "SA:01", "DL:P", "DL:F", "A", "XX:", "WD:P", "ZZ:1", "D", "AA"]
+
+
+def gen_writer(rng, tier, i):
+    ops = []
+    m = 0
+    for _ in range(rng.randint(1, 12)):
+        r = rng.random()
+        if r < 0.35:
+            m += 1
+            ops.append(["enq", m, None])
+        elif r < 0.65:
+            m += 1
+            ops.append(["enq", m, rng.choice(HEADERS)])
+        else:
+            ops.append(["rx", rng.choice(RX_MSGS)])
+    return {"ops": ops}
+
+
+def run_writer(case):
+    import asyncio
+    writes = []
+    c = _mk_fast(lambda m: None)
+
+    class W:
+        def write(self, msg):
+            writes.append(bytes(msg))
+    c.writer = W()
+    loop = asyncio.new_event_loop()
+    trace = []
+    err = None
+    try:
+        task = loop.create_task(c._socket_writer())
+        for op in case["ops"]:
+            before = len(writes)
+            if op[0] == "enq":
+                if op[2] is None:
+                    c.send_and_forget("M%d" % op[1])
+                else:
+                    c.send_with_confirmation("M%d" % op[1], op[2])
+            else:
+                c.parse_incoming_raw_bytes(op[1].encode() + b"\r")
+            for _ in range(6):
+                loop.run_until_complete(asyncio.sleep(0))
+            new = [int(w[1:-1].decode()) for w in writes[before:]]
+            trace.append([new, bool(c.pause_sending_flag.is_set())])
+        if task.done() and task.exception():
+            err = type(task.exception()).__name__
+        task.cancel()
+        try:
+            loop.run_until_complete(task)
+        except BaseException:   # noqa
+            pass
+    finally:
+        loop.close()
+    return {"trace": trace, "err": err, "left": c.send_queue.qsize()}
+
+
+def coq_writer(case, out):
+    if out["err"]:
+        return None
+    ops = coqlist("(Enq %d %s)" % (o[1], opt(o[2], lambda h: zlist(h.encode()))) if o[0] == "enq"
+                  else "(Rx %s)" % zlist(o[1][:3].encode()) for o in case["ops"])
+    exp = coqlist("(%s, %s)" % (zlist(n), blit(p)) for n, p in out["trace"])
+    return "((false, %s), %s)" % (ops, exp)
+
+
+def oracle_writer(case, out):
+    fails = []
+    if out["err"]:
+        return [{"sig": "fast-writer-exception", "what": "writer task raised " + out["err"]}]
+    enq = [o[1] for o in case["ops"] if o[0] == "enq"]
+    written = [m for n, _ in out["trace"] for m in n]
+    if written != enq[:len(written)]:
+        fails.append({"sig": "fast-writer-order", "what": "messages written out of order"})
+    conf = {o[1]: o[2] for o in case["ops"] if o[0] == "enq"}
+    awaiting = None
+    early = False
+    for op, (new, _) in zip(case["ops"], out["trace"]):
+        if op[0] == "rx" and awaiting is not None and awaiting.startswith(op[1][:3]):
+            awaiting = None
+        for m in new:
+            if awaiting is not None:
+                early = True
+            if conf[m] is not None:
+                awaiting = conf[m]
+    if early:
+        # exactly what the recorded defect produces: every message is written in the step it was queued
+        immediate = all(new == ([op[1]] if op[0] == "enq" else []) for op, (new, _) in zip(case["ops"], out["trace"]))
+        if immediate:
+            fails.append({"sig": "fast-writer-does-not-wait",
+                          "what": "a message is written while a confirmation is still awaited: _socket_writer awaits "
+                                  "pause_sending_flag.wait() on an Event that is SET while paused, so it never blocks"})
+        else:
+            fails.append({"sig": "fast-writer-early-other", "what": "a message is written while a confirmation is awaited"})
+    return fails
+
+
+def shrink_writer(case):
+    ops = case["ops"]
+    for i in range(len(ops)):
+        yield {"ops": ops[:i] + ops[i + 1:]}
+
+
+def nontrivial_writer(case, out):
+    return any(o[0] == "enq" and o[2] for o in case["ops"]) and len(case["ops"]) > 2
+
+
+HDR_WRITER = "From C14 Require Import Crc Model.\nDefinition run := writer_run.\nDefinition out_eqb := writer_out_eqb.\n"
+
+
+# ================================================================================================
+# FAST send_and_wait_for_response_processed with a lost response (oracle only; not modelled)
+def gen_retry(rng, tier, i):
+    return {"timeout": rng.choice([1, 2, 4]), "max_retries": rng.choice([0, 1, 2, 3]),
+            "respond_after": rng.choice([None, None, None, 0.5, 3]), "horizon": 64}
+
+
+def run_retry(case):
+    import asyncio
+    from mpf.tests.loop import TimeTravelLoop
+    writes = []
+    loop = TimeTravelLoop()
+    asyncio.set_event_loop(loop)
+    try:
+        c = _mk_fast(lambda m: None)
+
+        class W:
+            def write(self, msg):
+                writes.append([round(loop.time() * 1000), bytes(msg).decode()])
+        c.writer = W()
+        c.message_processors["QQ:"] = lambda msg: c.done_processing_msg_response()
+        wt = loop.create_task(c._socket_writer())
+        done = {"t": None, "exc": None}
+
+        async def caller():
+            try:
+                await c.send_and_wait_for_response_processed("QQ:", "QQ:", timeout=case["timeout"],
+                                                             max_retries=case["max_retries"])
+                done["t"] = round(loop.time() * 1000)
+            except Exception as e:     # noqa
+                done["exc"] = type(e).__name__
+                done["t"] = round(loop.time() * 1000)
+        ct = loop.create_task(caller())
+        if case["respond_after"] is not None:
+            loop.call_later(case["respond_after"], lambda: c.parse_incoming_raw_bytes(b"QQ:P\r"))
+        loop.run_until_complete(asyncio.sleep(case["horizon"]))
+        res = {"writes": writes, "done": done["t"], "exc": done["exc"]}
+        for t in (wt, ct):
+            t.cancel()
+            try:
+                loop.run_until_complete(t)
+            except BaseException:   # noqa
+                pass
+        return res
+    finally:
+        asyncio.set_event_loop(None)
+        loop.close(ignore_running_tasks=True)
+
+
+def oracle_retry(case, out):
+    n = len([w for w in out["writes"] if w[1] == "QQ:\r"])
+    if case["respond_after"] is not None and case["respond_after"] < case["timeout"]:
+        if n != 1 or out["done"] is None:
+            return [{"sig": "fast-response-in-time-mishandled", "what": "a response that arrived in time: %r" % out}]
+        return []
+    if case["respond_after"] is None:
+        # lost response: the property wants 1 + max_retries transmissions and then an end to the wait
+        if n == 1 and out["done"] is None and out["exc"] is None:
+            return [{"sig": "fast-lost-response-not-retried",
+                     "what": "send_and_wait_for_response_processed never re-sends after its timeout and then waits on "
+                             "done_waiting for ever (the timeout only guards the wait for the previous response)"}]
+        if n == 1 + case["max_retries"] and out["done"] is not None:
+            return []
+        return [{"sig": "fast-retry-other", "what": "lost response: %d transmissions, caller finished=%r" % (n, out["done"])}]
+    # late response
+    if n == 1 and out["done"] is not None:
+        return [] if case["max_retries"] == 0 else [{"sig": "fast-lost-response-not-retried",
+                                                     "what": "late response: no retransmission after the timeout"}]
+    return []
+
+
+SUITES = [
+    Suite("opp", gen_opp, run_opp, HDR_OPP, coq_opp, oracle_opp, shrink_opp, nontrivial_opp,
+          {"quick": 3000, "thorough": 120000}, describe=describe_opp, shard=250),
+    Suite("reader", gen_reader, run_reader, HDR_READER, coq_reader, oracle_reader, shrink_reader, nontrivial_reader,
+          {"quick": 1500, "thorough": 60000}, describe=describe_reader, shard=400),
+    Suite("writer", gen_writer, run_writer, HDR_WRITER, coq_writer, oracle_writer, shrink_writer, nontrivial_writer,
+          {"quick": 800, "thorough": 30000}, shard=400),
+    Suite("retry", gen_retry, run_retry, None, None, oracle_retry, None, None,
+          {"quick": 40, "thorough": 400}),
+]
